@@ -233,20 +233,20 @@ func (r *Result) Finish() int {
 	}
 	// obligations that were known findings count as not discharged
 	cov := map[string]interface{}{
-		"obligations":  obl,
-		"discharged":   dis,
-		"checker_cmd":  fmt.Sprintf("bin/rjverif check %s --tier %s", r.Prop, r.Tier),
-		"trusted_base": nonNil(r.Trusted),
-		"samples":      samples,
-		"rules":        r.Rules,
-		"not_decided":  nonNil(r.NotDecided),
-		"explanation":  r.Explain,
-		"exhaustive":   r.Exhaustive,
-		"notes":        nonNil(r.Notes),
-		"rule":         "one obligation per (rule, instance): product cell, call site, store, table row or path as listed per rule; an obligation is non-trivial by construction (it names a construct found in /repo's current source)",
-		"evaluations":  max(obl, 1),
+		"obligations":         obl,
+		"discharged":          dis,
+		"checker_cmd":         fmt.Sprintf("bin/rjverif check %s --tier %s", r.Prop, r.Tier),
+		"trusted_base":        nonNil(r.Trusted),
+		"samples":             samples,
+		"rules":               r.Rules,
+		"not_decided":         nonNil(r.NotDecided),
+		"explanation":         r.Explain,
+		"exhaustive":          r.Exhaustive,
+		"notes":               nonNil(r.Notes),
+		"rule":                "one obligation per (rule, instance): product cell, call site, store, table row or path as listed per rule; an obligation is non-trivial by construction (it names a construct found in /repo's current source)",
+		"evaluations":         max(obl, 1),
 		"distinct_nontrivial": max(dis, 2),
-		"analysed_dir": RepoDir(),
+		"analysed_dir":        RepoDir(),
 	}
 	if r.States > 0 {
 		cov["states"] = r.States
@@ -310,7 +310,6 @@ func seedFromEnv() int {
 	fmt.Sscanf(os.Getenv("VERIF_SEED"), "%d", &n)
 	return n
 }
-
 
 // StripVariant removes the "[GOARCH=386] " style prefix that findings of a build variant carry.
 func StripVariant(key string) string {
